@@ -34,6 +34,20 @@ def _validate_feed_state(feed_mass: float, feed_temperature: float) -> None:
         )
 
 
+def _validate_heats(evaporation_heat: float, condensation_heat: typing.Optional[float]) -> None:
+    """
+    Raises if the heats of a process step are not finite, which happens when the feed temperature
+    left the validity range of the vapour pressure equation (e.g. below the Antoine pole)
+    """
+    if not numpy.isfinite(evaporation_heat) or (
+        condensation_heat is not None and not numpy.isfinite(condensation_heat)
+    ):
+        raise ValueError(
+            "Evaporation / condensation heat is not finite: "
+            "the feed state left the validity range of the model, decrease the step size"
+        )
+
+
 def get_permeate_composition_from_fluxes(
     fluxes: typing.Tuple[float, float],
 ) -> Composition:
@@ -426,6 +440,8 @@ class Pervaporation:
                     )
                 )
 
+            _validate_heats(feed_evaporation_heat[step], permeate_condensation_heat[step])
+
             feed_mass.append(feed_mass[step] - d_mass_1 - d_mass_2)
 
             feed_composition.append(
@@ -603,6 +619,8 @@ class Pervaporation:
             feed_evaporation_heat.append(
                 evaporation_heat_1 * d_mass_1 + evaporation_heat_2 * d_mass_2
             )
+
+            _validate_heats(feed_evaporation_heat[step], permeate_condensation_heat[step])
 
             feed_mass.append(feed_mass[step] - d_mass_1 - d_mass_2)
 
@@ -1140,6 +1158,8 @@ class Pervaporation:
                     )
                 )
 
+            _validate_heats(feed_evaporation_heat[step], permeate_condensation_heat[step])
+
             feed_mass.append(feed_mass[step] - d_mass_1 - d_mass_2)
 
             feed_composition.append(
@@ -1460,6 +1480,8 @@ class Pervaporation:
             feed_evaporation_heat.append(
                 evaporation_heat_1 * d_mass_1 + evaporation_heat_2 * d_mass_2
             )
+
+            _validate_heats(feed_evaporation_heat[step], permeate_condensation_heat[step])
 
             feed_mass.append(feed_mass[step] - d_mass_1 - d_mass_2)
 
